@@ -96,3 +96,11 @@ CLAIMED["C07"] = (
  "writer/reader agreement lint per language pair (parser, printer) and (w2parser, w2printer): interface-implementer enumeration of parser-built node types vs. the printers' total type switches; parser-stored AST fields vs. printer-read fields with a reasoned exception table; language pairing in format.File",
  "Decides that each printer's total dispatchers over expressions and statements list every node type its paired parser builds, that every syntactic (non-positional, non-resolution) AST field the parser stores is read by the printer, and that format.File sends each language to its own parser and printer. Does not decide idempotence, comment placement, line breaking, or that the output re-parses to the same tree.",
  AST_BASE)
+CLAIMED["C11"] = (
+ "typestate/ordering lint over emission sequences of the code generator (ordered appends of retain / release / push / pop / load / store extracted from the type-checked AST, with guards and loop direction), sibling forwarder agreement, and a who-may-call / dominance-shape check over the embedded WAT runtime read with an own WAT reader",
+ "Decides the reference-counting emission discipline: the leaf block value retains on push, releases before overwrite, retains the new value before releasing the old one on stores; aStruct delegates every method to every field's same-named method in the right direction; forwarders forward to the same method; in the runtime only HeapFree calls free, only Block.Release calls HeapFree and only when the count reaches zero; HeapAlloc zero-fills. Does not decide that retains and releases balance along the paths of emitted programs, nor the allocator.",
+ AST_BASE)
+CLAIMED["C12"] = (
+ "ordering lint over emission sequences of the code generator (function epilogue, register overwrite, generated OnFree callbacks) and shape check of the runtime's Release loop in the embedded WAT",
+ "Decides the release side: genFunction releases every RC register after the body and after pushing the results; stores into an existing register use the releasing pop; Block.OnFree / Struct.genRawFree / Struct.OnFree / container forwarders release every referenced member; Block.Release runs the free callback once per item, advancing by the item size, before freeing. Does not decide absence of leaks in emitted programs, cycles, or allocator reuse.",
+ AST_BASE)
